@@ -40,6 +40,9 @@ type store[V any] interface {
 	// Update attempts to update the key with a new value and returns true if
 	// successful.
 	Update(*Item[V]) (V, bool)
+	// DelExpired deletes the key-value pair only if its expiration is set and has passed at the
+	// given time. It returns the deleted item and whether anything was deleted.
+	DelExpired(uint64, uint64, time.Time) (storeItem[V], bool)
 	// Cleanup removes items that have an expired TTL.
 	Cleanup(policy *defaultPolicy[V], onEvict func(item *Item[V]))
 	// Clear clears all contents of the store.
@@ -125,6 +128,10 @@ func (sm *shardedMap[V]) Set(i *Item[V]) {
 
 func (sm *shardedMap[V]) Del(key, conflict uint64) (uint64, V) {
 	return sm.shards[key%numShards].Del(key, conflict)
+}
+
+func (sm *shardedMap[V]) DelExpired(key, conflict uint64, now time.Time) (storeItem[V], bool) {
+	return sm.shards[key%numShards].DelExpired(key, conflict, now)
 }
 
 func (sm *shardedMap[V]) Update(newItem *Item[V]) (V, bool) {
@@ -238,6 +245,26 @@ func (m *lockedMap[V]) Del(key, conflict uint64) (uint64, V) {
 
 	delete(m.data, key)
 	return item.conflict, item.value
+}
+
+func (m *lockedMap[V]) DelExpired(key, conflict uint64, now time.Time) (storeItem[V], bool) {
+	m.Lock()
+	defer m.Unlock()
+	item, ok := m.data[key]
+	if !ok {
+		return storeItem[V]{}, false
+	}
+	if conflict != 0 && (conflict != item.conflict) {
+		return storeItem[V]{}, false
+	}
+	// The item might have been updated with a new or no expiration since it was put in the bucket.
+	if item.expiration.IsZero() || item.expiration.After(now) {
+		return storeItem[V]{}, false
+	}
+
+	m.em.del(key, item.expiration)
+	delete(m.data, key)
+	return item, true
 }
 
 func (m *lockedMap[V]) Update(newItem *Item[V]) (V, bool) {
